@@ -114,7 +114,7 @@ def run(ctx, replay):
                                 slow=("TRUE", "FALSE")))]
         states = trans = depth = 0
         for name, text in runs:
-            r = ctx.tlc_expect_ok("Remote", None, name=name, workers=w, timeout=3000, cfg_text=text)
+            r = ctx.tlc_expect_ok("Remote", None, name=name, workers=w, timeout=3000, cfg_text=text, heap="5g")
             states += r["distinct"]
             trans += r["generated"]
             depth = max(depth, r["depth"])
@@ -125,13 +125,13 @@ def run(ctx, replay):
         ctx.cov["transitions"] = trans
         ctx.cov["model_depth"] = depth
         # non-vacuity: the as-is model (deviation on) must violate the same invariant
-        ra = ctx.tlc("Remote", None, name="asis", workers=4, timeout=600,
+        ra = ctx.tlc("Remote", None, name="asis", workers=4, timeout=600, heap="2g",
                      cfg_text=cfg(polsets="LocalOnly", nmx=(1,), kinds="Kinds3", devs=("PoolUnchecked",),
                                   dnsfail=False, tail="VIEW View\nINVARIANTS NoViolation\n"))
         if ra["invariant"] != "NoViolation":
             raise vlib.Infra("as-is model (PoolUnchecked) no longer violates NoViolation: the invariant is vacuous "
                              "(%s %s)" % (ra["invariant"], ra["error"]))
-        rb = ctx.tlc("Remote", None, name="asis2", workers=4, timeout=600,
+        rb = ctx.tlc("Remote", None, name="asis2", workers=4, timeout=600, heap="2g",
                      cfg_text=cfg(polsets="DaneStsLocal", mintls=(0,), minmx=(1,), override=("TRUE",), sts=("testing",),
                                   stlscert="QuickStlsCert", tlsa="SmallTlsa", nmx=(2,), kinds="Kinds3", maxmsgs=1,
                                   dnsfail=False, slow=("TRUE", "FALSE"), devs=("TlsaFutureShared",),
@@ -164,7 +164,7 @@ def run(ctx, replay):
                       # every configuration of the 1-MX space with every history of 2 messages
                       ("gen-all1", cfg(nmx=(1,), kinds="Kinds3", maxmsgs=2, gen=True, tail=GEN_TAIL))]
         for name, text in focus:
-            g = ctx.tlc("Remote", None, name=name, workers=4, timeout=1800, cfg_text=text)
+            g = ctx.tlc("Remote", None, name=name, workers=4, timeout=1800, cfg_text=text, heap="4g")
             if not g["ok"]:
                 raise vlib.Infra("behaviour generation %s failed: %s %s" % (name, g["invariant"], g["error"]))
             got = behaviours_from(g)
@@ -177,7 +177,8 @@ def run(ctx, replay):
                 ("sim2", n2, cfg(nmx=(2,), stlscert="SmallStlsCert", tlsa="SmallTlsa", kinds="Kinds4",
                                  dnsfail=False, slow=("TRUE", "FALSE"), gen=True, tail=GEN_TAIL))]
         for name, n, text in sims:
-            g = ctx.tlc("Remote", None, name=name, workers=1, timeout=1800, simulate=n, depth=60, cfg_text=text)
+            g = ctx.tlc("Remote", None, name=name, workers=1, timeout=1800, simulate=n, depth=60, cfg_text=text,
+                        heap="4g")
             if not g["ok"]:
                 raise vlib.Infra("behaviour simulation %s failed: %s %s" % (name, g["invariant"], g["error"]))
             behs += behaviours_from(g)
